@@ -33,6 +33,18 @@ def replay (j : Json) : R Verdict := do
   if ret.compress == "\"panic\"" then
     pf := pf ++ [s!"C15: sync_launch::launch panicked ({if (fieldD j "stalledLate").getBool?.toOption == some true then "the time limit expired after the controller had finished, while the report writer was still waiting for its sink" else "in-process run"})",
                  s!"C04: a run whose time limit expired with nothing left in flight panicked instead of returning its result"]
+  -- C04: two runs with the Signal criterion in one process, each interrupted at its 4th evaluation (budget 300)
+  match (fieldD j "signalTwin").getArr?.toOption with
+  | some runs =>
+    tags := "run:signal-twice" :: tags
+    let mut k := 1
+    for r in runs do
+      let calls := (fieldD r "calls").getNat?.toOption.getD 0
+      if calls > 40 then
+        pf := pf ++ [s!"C04: run {k} of a process (Signal criterion, budget 300) was interrupted at its 4th evaluation and still started {calls} evaluations: the interrupt was not taken ({(fieldD r "ret").compress})"]
+      if (fieldD r "ret").compress == "\"panic\"" then pf := pf ++ [s!"C15: run {k} with the Signal criterion panicked"]
+      k := k + 1
+  | none => if !(fieldD j "signalTwin").isNull then dis := some s!"signal experiment gave no output: {(fieldD j "signalTwin").compress}"
   match (fieldD j "stdoutNoise").getNat?.toOption with
   | some k => if k > 0 then pf := pf ++ [s!"C16: the library wrote {k} byte(s) to the process's standard output during a run: a successful CLI run would print more than its one line"]
   | none => pure ()
